@@ -1,5 +1,6 @@
 """C10 - the population size is conserved across generations."""
 from .common import *          # noqa
+import numpy as np
 
 META = {
     "explanation": "Real _generate_agents(n) / _init_population in serial, thread and process mode (pool model, every "
@@ -8,10 +9,18 @@ META = {
                    "agents; _generate_group_population(g, P//g) partitions the population (disjoint groups + residual "
                    "whose union is the population) for every P<=8 and g<=P; through the real optimize() with scripted "
                    "size-preserving rules every recorded generation has exactly population_size agents (never empty, "
-                   "never larger) and has the length of the live population.",
-    "bounds": {"quick": "n<=3 agents (pooled: all completion orders), P<=8 groups, 2 cycles",
-               "thorough": "n<=4 agents, 3 cycles"},
-    "outside": "list surgery inside the 84 update rules (H7); the three variable-size optimizers (Bee Colony, Forest, "
+                   "never larger) and has the length of the live population. Bug hunting inside the 81 fixed-size update "
+                   "rules (refutation-only, group class_step): the class's float configuration fields are solver variables "
+                   "constrained only by the class's validators, population_size is small and concrete, the real optimize() "
+                   "runs two cycles on a concrete task with the real generator; counts derived from the configuration "
+                   "(int(rate * population_size), slices, ranges) are then symbolic; a candidate is reported only if the "
+                   "same obligation replayed on the real pydantic / numpy confirms it.",
+    "bounds": {"quick": "n<=3 agents (pooled: all completion orders), P<=8 groups, 2 cycles; class_step: population 5, "
+                        "2 cycles, 45 s per class",
+               "thorough": "n<=4 agents, 3 cycles; class_step: populations 5, 8, 12, 240 s per class"},
+    "outside": "list surgery inside the 84 update rules (H7) beyond what class_step reaches: class_step is refutation-only "
+               "(inconclusive wherever symbolic floats meet numpy mathematics; integer configuration fields and the task "
+               "stay at the test-suite values); the three variable-size optimizers (Bee Colony, Forest, "
                "Imperialist Competitive) are excluded by the property itself",
     "stubs": ["np.random.* symbolic stream", "pool model", "pydantic-lite"],
     "assumptions": ["finite floats as reals"],
@@ -151,6 +160,61 @@ def ob_optimize(rule, n, cycles, mode):
     return f
 
 
+VARIABLE_SIZE = ("BeeColonyOptimization", "ForestOptimizationAlgorithm", "ImperialistCompetitiveOptimization")
+
+
+class _Sphere(M.Task):
+    def objective_function(self, x):
+        return float(sum(v * v for v in x))
+
+
+def ob_class_step(cname, pop):
+    """bug hunting inside one update rule (H7): the class's float configuration fields become solver variables (the
+    class's own validators are the only constraint), population_size is the given small value, and the real optimize()
+    runs two cycles on a concrete task with the real generator. Counts derived from the configuration
+    (int(rate * population_size), slices, ranges) are then symbolic. The same obligation replayed on the real pydantic /
+    numpy decides (api_replay_decides); where symbolic floats meet numpy mathematics the exploration is inconclusive."""
+    from .funnel import optimizer_classes, config_class, test_config
+    cls = optimizer_classes()[cname]
+
+    def f():
+        with env(rng_deny=False):
+            C = config_class(cls)
+            kw = dict(test_config(cls))
+            kw.update(population_size=pop, max_cycles=2, fitness_error=None)
+            kw.pop("early_stopping", None)
+            for k, v in list(kw.items()):
+                if type(v) is float:
+                    kw[k] = sym.real(f"cfg.{k}")
+            try:
+                cfg = C(**kw)
+            except Exception:
+                return OK          # not a valid configuration
+            o = cls(cfg)
+            task = _Sphere(variables=[M.ContinuousMultiVariable(name="x", lower_bounds=[-2.0, -2.0], upper_bounds=[2.0, 2.0])],
+                           seed=5)
+            np.random.seed(5)
+            started = []
+            real_after = o.after_initialization
+            o.after_initialization = lambda: (started.append(1), real_after())[1]
+            try:
+                res = o.optimize(task)
+            except (sym.Inconclusive, sym.ReplayMismatch):
+                raise
+            except Exception as e:
+                n = len(o._population) if isinstance(o._population, list) else -1
+                if started and n != pop:          # (a configuration rejected before the population exists is C06's subject)
+                    return Failure("class-step:live-population-size-changed", cls=cname, population_size=pop, live=n,
+                                   raised=type(e).__name__)
+                return OK          # (an exception with an intact population is not this property's subject)
+            sizes = [len(g.agents) for g in res.evolution]
+            if any(n != pop for n in sizes):
+                return Failure("class-step:generation-size-differs-from-population_size", cls=cname, population_size=pop,
+                               sizes=sizes)
+            return OK
+    return f
+
+
 def twin():
     def f():
         with env():
@@ -181,5 +245,12 @@ def obligations(tier):
                 continue
             obs.append(Ob(f"optimize[{rule},n=2,cycles={3 if th and mode == 'serial' else 2},{mode}]",
                           ob_optimize(rule, 2, 3 if th and mode == "serial" else 2, mode), 900))
+    from .funnel import optimizer_classes
+    for cname in optimizer_classes():
+        if cname in VARIABLE_SIZE:
+            continue
+        for pop in (5, 8, 12) if th else (5,):
+            obs.append(Ob(f"class_step[{cname},pop={pop}]", ob_class_step(cname, pop), 240 if th else 45, group="class_step",
+                          refutation_only=True, api_replay_decides=True, tolerate_errors=True))
     obs.append(Ob("twin_vacuity", twin(), 30, expect_refuted=True))
     return obs
